@@ -414,7 +414,9 @@ def check_float_bounds(h: Harness):
     # products can land one ulp outside), and bounds given as int literals (the result is a float all the same)
     tight = [(0.9, 0.9), (-0.9, -0.9), (1 / 3, 1 / 3), (0.01, 0.01), (0.7, 0.7000000000000001), (-0.30000000000000004, -0.3), (0, 9), (-3, 3), (5, 5),
              # int-literal bounds beyond 2**53 that have no exact float form (the nearest float lies OUTSIDE the range)
-             (0, sys.maxsize), (0, 2**60 + 129), (-(2**53) - 1, 5), (-sys.maxsize, sys.maxsize), (-(2**60) - 129, -(2**60))]
+             (0, sys.maxsize), (0, 2**60 + 129), (-(2**53) - 1, 5), (-sys.maxsize, sys.maxsize), (-(2**60) - 129, -(2**60)),
+             # narrow ranges next to a bound whose nearest float is a power of two (the floats on its two sides are spaced differently)
+             (sys.maxsize - 1500, sys.maxsize), (-sys.maxsize, -sys.maxsize + 1500), (2**62 - 700, 2**62 + 1), (sys.maxsize - 1024, sys.maxsize)]
     g = grammar()
     for lo, hi in pairs + tight:
         genes = (0, 1, 2, 10, 1024, 2048, sys.maxsize) if (lo, hi) in pairs else tuple(range(0, 1026)) + (2048, 2049, sys.maxsize, sys.maxsize - 1, sys.maxsize - 2, sys.maxsize // 2)
